@@ -66,6 +66,9 @@ pub enum OpKind {
     CloneAndFind,
     /// take captures, let other threads run, then read every group (shared name table)
     CapturesHeld,
+    /// search with a private clone, drop the clone while the Captures are still alive, let other
+    /// threads run, then read every group by index and by name (the name table outlives its Regex)
+    CapturesOutliveRegex,
 }
 
 #[derive(Clone, Debug, PartialEq, Eq)]
@@ -272,6 +275,29 @@ fn exec_op_inner(re: &Regex, text: &str, op: &Op) -> String {
                 Err(e) => fmt_err(&e),
             }
         }
+        OpKind::CapturesOutliveRegex => {
+            let c = re.clone();
+            let names: Vec<Option<String>> = c.capture_names().map(|n| n.map(|s| s.to_string())).collect();
+            match c.captures(text) {
+                Ok(Some(caps)) => {
+                    drop(c);
+                    sched::yield_now(SITE_OP_BOUNDARY);
+                    let mut s = format!("len={}", caps.len());
+                    for i in 0..caps.len() {
+                        s.push_str(&format!(" {}:{}", i, fmt_span(caps.get(i))));
+                    }
+                    for (i, n) in names.iter().enumerate() {
+                        if let Some(n) = n {
+                            s.push_str(&format!(" {}@{}={}", n, i, fmt_span(caps.name(n))));
+                        }
+                    }
+                    sched::yield_now(SITE_OP_BOUNDARY);
+                    s
+                }
+                Ok(None) => "-".to_string(),
+                Err(e) => fmt_err(&e),
+            }
+        }
         OpKind::CloneAndFind => {
             let c = re.clone();
             sched::yield_now(SITE_OP_BOUNDARY);
@@ -426,6 +452,8 @@ const C18_PATTERNS: &[&str] = &[
     r"(a)?(?(1)b|c)",
     r"(a*)*b",
     r"\b(\w)\w*\1\b",
+    r"(?<first>a+)(?<second>b+)?\k<first>",
+    r"(?<y>\d{2})-(?<m>\d)(?!\d)",
 ];
 
 fn gen_scenario(rng: &mut Rng, max_threads: usize) -> Option<Scenario> {
@@ -455,7 +483,7 @@ fn gen_scenario(rng: &mut Rng, max_threads: usize) -> Option<Scenario> {
         for _ in 0..n_ops {
             let text = rng.below(texts.len());
             let tl = texts[text].len();
-            let kind = match rng.below(16) {
+            let kind = match rng.below(17) {
                 0 => OpKind::IsMatch,
                 1 | 2 => OpKind::Find,
                 3 => OpKind::FindFromPos(rng.below(tl + 1)),
@@ -469,6 +497,7 @@ fn gen_scenario(rng: &mut Rng, max_threads: usize) -> Option<Scenario> {
                     rng.pick(&[RepKind::Identity, RepKind::Const, RepKind::NoExpand, RepKind::Template, RepKind::Reentrant]).clone(),
                 ),
                 13 => OpKind::CloneAndFind,
+                14 => OpKind::CapturesOutliveRegex,
                 _ => OpKind::CapturesHeld,
             };
             ops.push(Op { kind, re: rng.below(regexes.len()), text, fault: None });
@@ -547,6 +576,7 @@ fn op_to_json(op: &Op) -> Value {
         OpKind::Replace(n, k) => json!(["try_replacen", n, format!("{:?}", k)]),
         OpKind::CloneAndFind => json!(["clone_and_find"]),
         OpKind::CapturesHeld => json!(["captures_held"]),
+        OpKind::CapturesOutliveRegex => json!(["captures_outlive_regex"]),
     };
     json!({"op": kind, "re": op.re, "text": op.text, "fault": op.fault.as_ref().map(|(j, k, v)| json!([j, k, v]))})
 }
@@ -576,6 +606,7 @@ fn op_from_json(v: &Value) -> Option<Op> {
         ),
         "clone_and_find" => OpKind::CloneAndFind,
         "captures_held" => OpKind::CapturesHeld,
+        "captures_outlive_regex" => OpKind::CapturesOutliveRegex,
         _ => return None,
     };
     Some(Op {
@@ -746,7 +777,7 @@ fn job(seed: u64, i: u64, max_threads: usize, runs_per_job: usize) -> (JobOut, O
                     }
                 }
                 match op.kind {
-                    OpKind::CloneAndFind => out.clone_ops += 1,
+                    OpKind::CloneAndFind | OpKind::CapturesOutliveRegex => out.clone_ops += 1,
                     OpKind::Replace(_, RepKind::Reentrant) => out.reentrant_ops += 1,
                     _ => {}
                 }
